@@ -13,6 +13,159 @@ import (
 
 func init() {
 	env.Register("C03_Commits", C03_Commits)
+	env.Register("C03_FutureCommit", C03_FutureCommit)
+	env.Register("C04_NewViewCommit", C04_NewViewCommit)
+}
+
+// roundWith delivers an honest view-0 round for height h to node n using the peers of `net`
+// (proposal by member 0 unless n is member 0, PREPAREs and COMMITs of everybody else).
+func roundWith(n *vNode, me int, net *vNet, h primitives.BlockHeight, b *stub.Block) {
+	hash := stub.HashOf(b)
+	if me != 0 {
+		n.deliver(net.ppm(0, h, 0, b).ToConsensusRawMessage())
+	}
+	for i := 1; i < 4; i++ {
+		if i != me {
+			n.deliver(net.pm(i, h, 0, hash).ToConsensusRawMessage())
+		}
+	}
+	for i := 0; i < 4; i++ {
+		if i != me {
+			n.deliver(net.cm(i, h, 0, hash).ToConsensusRawMessage())
+		}
+	}
+}
+
+// C03_FutureCommit: while the node is at height 1 a fully symbolic COMMIT arrives (it may be for height 2
+// and sit in the future cache). The node then commits height 1 honestly, enters height 2 (draining the
+// cache) and commits height 2 with honest traffic. Both certificates must pass strict validation on a peer.
+func C03_FutureCommit() {
+	me := env.Param("me") // 1..3
+	wd := newWorld(me, equalWeights(4))
+	n := wd.n
+	n.commitErr = false
+	validator := newVNode(wd.reg, wd.net.committee, (me+1)%4, vInstance)
+
+	// the seed of height 2 is determined by the (deterministic) aggregated seed signature of height 1
+	agg1 := stub.GroupSeedSig(1, randomseed.RandomSeedToBytes(wd.net.seed))
+	seed2 := randomseed.CalculateRandomSeed(agg1)
+	hdr := newSymRef("c")
+	snd := newSymSender(wd.reg, "c_s", uint64(hdr.height), hdr.raw)
+	seedBytes := randomseed.RandomSeedToBytes(seed2)
+	if env.NondetBool("share_for_height1") {
+		seedBytes = randomseed.RandomSeedToBytes(wd.net.seed)
+	}
+	share, _ := symSig(wd.reg, stub.KindSeed, []byte{snd.id}, uint64(hdr.height), seedBytes, "c_share")
+	c := (&protocol.CommitContentBuilder{SignedHeader: hdr.b, Sender: snd.b, Share: share}).Build()
+	n.deliver(interfaces.NewCommitMessage(c).ToConsensusRawMessage())
+
+	b1 := &stub.Block{H: 1, Tag: 0x21, ProposalOK: true}
+	roundWith(n, me, wd.net, 1, b1)
+	env.Assert("C03.future.height1_committed", len(n.commits) >= 1)
+	if len(n.commits) < 1 {
+		return
+	}
+	c1 := n.commits[0]
+	var err error
+	pn := env.Catch(func() { err = validator.m.worker.ValidateBlockConsensus(context.Background(), c1.raw, c1.proof, nil, nil, false) })
+	env.Assert("C03.strict_accepts", env.And(pn == 0, err == nil))
+	env.Assert("C03.future.seed_model", env.EqBytes(protocol.BlockProofReader(c1.proof).RandomSeedSignature(), agg1))
+	env.Assert("C03.future.entered_height2", n.m.state.Height() == 2)
+	if n.m.state.Height() != 2 || pn != 0 || err != nil {
+		return
+	}
+	// height 2: honest peers whose seed comes from the height-1 proof
+	net2 := newVNet(wd.reg, wd.net.committee, vInstance, c1.proof)
+	n.commitErr = true
+	b2 := &stub.Block{H: 2, Tag: 0x23, ProposalOK: true}
+	roundWith(n, me, net2, 2, b2)
+	env.Assert("C03.future.height2_committed", len(n.commits) == 2)
+	if len(n.commits) != 2 {
+		return
+	}
+	c2 := n.commits[1]
+	pn = env.Catch(func() { err = validator.m.worker.ValidateBlockConsensus(context.Background(), c2.raw, c2.proof, c1.raw, c1.proof, false) })
+	env.Assert("C03.strict_accepts", env.And(pn == 0, err == nil))
+	env.Reach("C03.future.two_heights")
+}
+
+// C04_NewViewCommit: a node that timed out to view 1 receives one NEW_VIEW whose fields, votes and prepared
+// proof are entirely symbolic, then genuine PREPAREs and COMMITs of the other members for whatever it
+// accepted. If it commits, the block must have been approved by a correct member's consumer: by this
+// node's ValidateBlockProposal in this run, or it is certified by a valid prepared proof (PREPAREs of
+// correct members are only ever sent for proposals their consumer approved).
+func C04_NewViewCommit() {
+	me := env.Param("me") // 0, 2 or 3
+	mask := env.Param("proofmask")
+	wd := newWorld(me, equalWeights(4))
+	n, ref := wd.n, wd.ref
+	n.timeout()
+	H := primitives.BlockHeight(1)
+	var vs []*symVote
+	var vbs []*protocol.ViewChangeMessageContentBuilder
+	for i := 0; i < 3; i++ {
+		v := newSymVote(wd.reg, "v", mask&(1<<uint(i)) != 0, 2)
+		vs = append(vs, v)
+		vbs = append(vbs, v.b)
+	}
+	nvView := primitives.View(env.NondetU64("nv_view"))
+	nh := &protocol.NewViewHeaderBuilder{MessageType: protocol.LEAN_HELIX_NEW_VIEW, InstanceId: vInstance, BlockHeight: H, View: nvView, ViewChangeConfirmations: vbs}
+	nvSnd := newSymSender(wd.reg, "nv_s", uint64(H), nh.Build().Raw())
+	pp := newSymRef("pp")
+	ppSnd := newSymSender(wd.reg, "pp_s", uint64(pp.height), pp.raw)
+	content := (&protocol.NewViewMessageContentBuilder{SignedHeader: nh, Sender: nvSnd.b, Message: &protocol.PreprepareContentBuilder{SignedHeader: pp.b, Sender: ppSnd.b}}).Build()
+	blk := symBlock("blk")
+	s0 := n.snap()
+	n.deliver(interfaces.NewNewViewMessage(content, blk).ToConsensusRawMessage())
+	if !n.influenced(s0) {
+		return
+	}
+	env.Reach("C04.nv.accepted")
+	// the other members go along: PREPAREs and COMMITs for exactly what the node prepared
+	var myPrep *interfaces.PrepareMessage
+	for _, s := range n.comm.Out[s0.out:] {
+		if pm, ok := s.Msg.(*interfaces.PrepareMessage); ok {
+			myPrep = pm
+		}
+	}
+	if myPrep == nil {
+		return
+	}
+	pv, ph := myPrep.View(), myPrep.Content().SignedHeader().BlockHash()
+	for i := 0; i < 4; i++ {
+		if i != me && byte(i+1) != ref.leader(pv) {
+			n.deliver(wd.net.pm(i, H, pv, ph).ToConsensusRawMessage())
+		}
+	}
+	for i := 0; i < 4; i++ {
+		if i != me {
+			n.deliver(wd.net.cm(i, H, pv, ph).ToConsensusRawMessage())
+		}
+	}
+	if len(n.commits) == 0 {
+		return
+	}
+	env.Reach("C04.nv.committed")
+	c := n.commits[0]
+	env.Assert("C04.block_present", c.block != nil)
+	if c.block == nil {
+		return
+	}
+	env.Assert("C04.height", c.block.H == H)
+	env.Assert("C04.hash", stub.Commits(c.block, protocol.BlockProofReader(c.proof).BlockRef().BlockHash()))
+	approved := false
+	for _, v := range n.bu.Validations {
+		approved = env.Or(approved, env.And(v.OK, v.Block == c.block))
+	}
+	// or certified by a valid prepared proof carried by a genuine vote of the accepted NEW_VIEW
+	for _, v := range vs {
+		if v.proof == nil {
+			continue
+		}
+		good := env.And(v.instance == vInstance, env.And(v.height == H, env.And(v.view == nvView, env.And(v.snd.isValid(), ref.member(v.snd.id)))))
+		approved = env.Or(approved, env.And(good, env.And(ref.proofOK(v.proof, H, nvView), v.proof.pp.hash == c.block.Tag)))
+	}
+	env.Assert("C04.approved_by_correct", approved)
 }
 
 // symCommit builds one COMMIT with every field symbolic (header incl. type tag, sender, signature and share validity).
